@@ -75,6 +75,12 @@ func buildImage(img string, size int) []byte {
 		for i := 256; i < 272; i++ {
 			b[i] = byte(i)
 		}
+	case img == "iovflood":
+		// the whole memory is an array of VALID, large, overlapping iovecs {buf = 0, len = half the memory}: every
+		// single one passes its bounds check, their total is iovs_len x half the memory
+		for off := 0; off+8 <= size; off += 8 {
+			putIov(b, off, 0, S/2)
+		}
 	case strings.HasPrefix(img, "rand:"):
 		n, _ := strconv.ParseInt(img[5:], 10, 64)
 		r := rand.New(rand.NewSource(n))
